@@ -538,8 +538,11 @@ SEQ_VALS = ["i1", "i2", "i7", "u", "n", "N", "z", "s1", "o3", "i0"]
 #   accessor descriptors without a setter function  (array element / converted data property: Reflect.set returns true,
 #                                                     strict assignment does not throw)
 #   get:undefined,set:undefined                      (C11 known finding B; exercised by the dedicated kind `uacc`)
-SEQ_DESCS = ["i1,1,1,1,-,-", "i2,-,-,-,-,-", "-,0,-,-,-,-", "-,-,-,0,-,-", "-,-,0,-,-,-", "-,-,1,1,o1,o2", "i1,0,0,0,-,-",
-             "-,-,-,-,-,-", "i7,-,-,-,-,-", "-,1,-,-,-,-", "u,0,1,0,-,-", "-,-,-,0,o1,o2", "N,-,-,-,-,-"]
+#   `writable` without `value`                      (object.go _defineOwnProperty does not treat {writable:…} as a data
+#                                                     descriptor: on a non-configurable accessor it returns true and leaves
+#                                                     a hybrid property)
+SEQ_DESCS = ["i1,1,1,1,-,-", "i2,-,-,-,-,-", "i1,0,-,-,-,-", "-,-,-,0,-,-", "-,-,0,-,-,-", "-,-,1,1,o1,o2", "i1,0,0,0,-,-",
+             "-,-,-,-,-,-", "i7,-,-,-,-,-", "i2,1,-,-,-,-", "u,0,1,0,-,-", "-,-,-,0,o1,o2", "N,-,-,-,-,-"]
 VALUE_DESCS = [d for d in SEQ_DESCS if d.split(",")[0] != "-" and d.split(",")[2] == d.split(",")[3] == "-" or d == "i1,1,1,1,-,-"]
 KEY_OPS = ["get", "rget", "has", "hasOwn", "del", "sdel", "ldel", "gopd", "pie"]
 KEYVAL_OPS = ["set", "sset", "lset", "rset"]
@@ -572,7 +575,12 @@ def gen_op(rng, kind):
         if r < 0.34:
             op = "%s/%s" % (rng.choice(KEY_OPS), k)
         elif r < 0.52:
-            op = "%s/%s/%s" % (rng.choice(KEYVAL_OPS), k, rng.choice(SEQ_VALS))
+            vals = SEQ_VALS
+            if k == "length" and kind in ("arr", "sparse"):
+                # an invalid array length on a non-writable `length` throws RangeError instead of failing with false/TypeError
+                # (array.go validates the value before looking at writability) -- not proxy.go's business
+                vals = ["i0", "i1", "i2", "i7"]
+            op = "%s/%s/%s" % (rng.choice(KEYVAL_OPS), k, rng.choice(vals))
         elif r < 0.68:
             if "desc_keys" in cfg:
                 k = rng.choice(cfg["desc_keys"])
@@ -697,6 +705,48 @@ def model_line(layers, op, res, facts, tm):
                                            ",".join(tm.key(k) for k in keys) or "-")
     return line, mres
 
+
+TRAP_OF = {"gpo": "getPrototypeOf", "spo": "setPrototypeOf", "ie": "isExtensible", "pe": "preventExtensions",
+           "gopd": "getOwnPropertyDescriptor", "def": "defineProperty", "has": "has", "rget": "get", "rset": "set",
+           "del": "deleteProperty", "keys": "ownKeys"}
+
+def py_layer_log(n, prim, res, own, ext):
+    """Independent (python) twin of Model.lean `proxyLayer` call structure over a scripted base: the sequence of trap
+    calls on all layers for one primitive operation on n forwarding layers.  res: 'TE' | 'b:1' | 'b:0' | other (ok);
+    own: cur token of the base target's own property after the op ('-' absent); ext: base extensible after the op."""
+    conf = own != "-" and own.split(",")[-1] == "1"
+    def L(k, op):
+        if k == 0:
+            return []
+        head = ["%d:%s" % (k, TRAP_OF[op])]
+        if res == "TE" and op == prim:
+            return head + L(k - 1, op)
+        if op == "ie":
+            return head + L(k - 1, "ie") + L(k - 1, "ie")
+        if op == "gpo":
+            return head + L(k - 1, "gpo") + L(k - 1, "ie") + ([] if ext else L(k - 1, "gpo"))
+        if op == "spo":
+            return head + L(k - 1, "spo") + ((L(k - 1, "ie") + ([] if ext else L(k - 1, "gpo"))) if res == "b:1" else [])
+        if op == "pe":
+            return head + L(k - 1, "pe") + (L(k - 1, "ie") if res == "b:1" else [])
+        if op == "gopd":
+            return head + L(k - 1, "gopd") + L(k - 1, "gopd") + (L(k - 1, "ie") if own != "-" else [])
+        if op == "def":
+            return head + L(k - 1, "def") + ((L(k - 1, "gopd") + L(k - 1, "ie")) if res == "b:1" else [])
+        if op == "has":
+            return head + L(k - 1, "has") + ((L(k - 1, "gopd") + (L(k - 1, "ie") if conf else [])) if res == "b:0" else [])
+        if op == "rget":
+            return head + L(k - 1, "rget") + L(k - 1, "gopd")
+        if op == "rset":
+            return head + L(k - 1, "rset") + (L(k - 1, "gopd") if res == "b:1" else [])
+        if op == "del":
+            return head + L(k - 1, "del") + L(k - 1, "gopd") + (L(k - 1, "ie") if (res == "b:1" and conf) else [])
+        if op == "keys":
+            return head + L(k - 1, "keys") + L(k - 1, "ie") + L(k - 1, "keys")
+        raise ValueError(op)
+    out = L(n, prim)
+    return ",".join(out) if out else "-"
+
 SIG_B = "C11/getOwnPropertyDescriptor: accessor descriptor without getter and setter functions reported as a data property"
 
 def seq_signature(line, out):
@@ -718,7 +768,7 @@ def lockstep(ctx, harness, model):
         return
     ctx.stats["lockstep_histories"] = len(lines)
     bad = []
-    mlines, mexp, mref = [], [], []
+    mlines, mexp, mref, pylog = [], [], [], []
     opmix, kinds, nops = {}, {}, 0
     for li, (l, o) in enumerate(zip(lines, out)):
         f = l.split()
@@ -745,6 +795,8 @@ def lockstep(ctx, harness, model):
             ml = model_line(int(f[2]), op, res, facts, tm)
             if ml is not None:
                 mlines.append(ml[0]); mexp.append((ml[1], log or "-")); mref.append((li, op))
+                mt = ml[0].split()
+                pylog.append(py_layer_log(int(mt[1]), mt[2], ("TE" if ml[1] == "TE" else ml[1] if ml[1][:2] == "b:" else "ok"), mt[6], mt[7] == "1"))
     ctx.stats["lockstep_ops"] = nops
     ctx.stats["lockstep_op_mix"] = opmix
     ctx.stats["lockstep_kind_layers_handler"] = kinds
@@ -781,7 +833,36 @@ def lockstep(ctx, harness, model):
         ctx.violation(sig, "forwarding proxy is not observationally identical to its target: %s -> %s" % (l, o[:300]),
                       {"kind": "history", "ops": [l], "observed": o, "expected": "OK (every result and the final state identical)"})
 
-    # ---- trap-call sequences of every layer vs the Lean layer model over the scripted base
+    # ---- trap-call sequences of every layer vs the independent python twin of the layer model (needs no Lean)
+    pybad = [i for i in range(len(mlines)) if pylog[i] != mexp[i][1]]
+    ctx.obligation("corr:lockstep.trap-log==python-layer-oracle", "correspondence", not pybad,
+                   "" if not pybad else "; ".join("%s op=%s expected=%s observed=%s" % (lines[mref[i][0]][:120], mref[i][1], pylog[i], mexp[i][1]) for i in pybad[:4]))
+    seen_ts = set()
+    for i in pybad:
+        li, op = mref[i]
+        f = lines[li].split()
+        sig = "C11/trap-sequence: %s layers=%s handler=%s" % (op.split("/")[0], f[2], f[3])
+        if sig in seen_ts or len(seen_ts) >= 4:
+            continue
+        seen_ts.add(sig)
+        # minimise: the single op on a fresh target usually suffices
+        single = "Q %s %s %s %s" % (f[1], f[2], f[3], op)
+        rc, oo, _ = ctx.run_lines([harness], [single], timeout=60)
+        rep = lines[li]
+        if oo and oo[0].startswith("OK ") and oo[0].split("#")[-1] != pylog[i] and len(oo[0].split(" | ")) == 1:
+            tm2 = TokMap()
+            parts = oo[0][3:].split("#")
+            ml2 = model_line(int(f[2]), parts[0], parts[1], parts[2], tm2)
+            if ml2 is not None:
+                mt = ml2[0].split()
+                exp2 = py_layer_log(int(mt[1]), mt[2], ("TE" if ml2[1] == "TE" else ml2[1] if ml2[1][:2] == "b:" else "ok"), mt[6], mt[7] == "1")
+                if exp2 != (parts[3] or "-"):
+                    rep = single
+        ctx.violation(sig, "a forwarding proxy used as a TARGET sees a different sequence of trap calls than ECMA-262 §10.5 prescribes "
+                      "(an outer layer consults its target more or fewer times): %s, op %s: observed %s, expected %s" % (rep, op, mexp[i][1], pylog[i]),
+                      {"kind": "history", "ops": [rep], "op": op, "observed_log": mexp[i][1], "expected": pylog[i]})
+
+    # ---- ... and vs the Lean layer model over the scripted base
     if model and mlines:
         t0 = time.time()
         mo, err = run_sharded(ctx, model, mlines, shards=8)
@@ -799,14 +880,9 @@ def lockstep(ctx, harness, model):
         ctx.count(len(mlines))
         ctx.obligation("corr:lockstep.trap-log==layer-model", "correspondence", not logbad,
                        "" if not logbad else "; ".join("%s op=%s model-line=[%s] model=%s impl=%s %s" % (lines[mref[i][0]][:120], mref[i][1], mlines[i], mo[i], mexp[i][0], mexp[i][1]) for i in logbad[:4]))
-        for i in logbad[:3]:
-            li, op = mref[i]
-            f = lines[li].split()
-            # a superfluous / missing / reordered trap call on an inner layer is observable by that layer's handler:
-            # the inner proxy, used as a target, is not treated as the spec (and the layer model) prescribes
-            ctx.violation("C11/trap-sequence: %s layers=%s handler=%s" % (op.split("/")[0], f[2], f[3]),
-                          "trap-call sequence differs from ECMA-262 §10.5 (layer model): op %s, observed %s, expected %s" % (op, mexp[i][1], mo[i].split(" ")[-1]),
-                          {"kind": "history", "ops": [lines[li]], "op": op, "observed_log": mexp[i][1], "expected": mo[i], "model_line": mlines[i]})
+        lp = [i for i in range(len(mo)) if mo[i].split(" ")[-1] != pylog[i]]
+        ctx.obligation("corr:lockstep.lean-layer-model==python-layer-oracle", "correspondence", not lp,
+                       "" if not lp else "; ".join("[%s] lean=%s py=%s" % (mlines[i], mo[i], pylog[i]) for i in lp[:4]))
     elif not model:
         ctx.obligation("corr:lockstep.trap-log==layer-model", "correspondence", False, "Lean driver unavailable")
 
@@ -854,9 +930,36 @@ def main(ctx):
                       rule="lattice: exhaustive product of the abstract domain (descriptor fields x target property shape x extensibility x trap result) for the white-box calls, "
                            "near-honest descriptors x handler kind x key kind end-to-end; a case is distinct by (trap, abstract fields); lock-step: seeded op histories, distinct by (target kind, layers, handler kind, op list)")
 
+def history_problems(line, out):
+    """problems of one lock-step history given the harness answer (no Lean needed)"""
+    f = line.split()
+    if f[1] == "revoked":
+        return [] if out.startswith("OK") else ["revoked proxy did not throw TypeError on: " + out]
+    if not out.startswith("OK "):
+        return [out]
+    probs = []
+    tm = TokMap()
+    for item in out[3:].split(" | "):
+        parts = item.split("#")
+        if len(parts) != 4:
+            continue
+        op, res, facts, log = parts
+        ml = model_line(int(f[2]), op, res, facts, tm)
+        if ml is None:
+            continue
+        mt = ml[0].split()
+        exp = py_layer_log(int(mt[1]), mt[2], ("TE" if ml[1] == "TE" else ml[1] if ml[1][:2] == "b:" else "ok"), mt[6], mt[7] == "1")
+        if exp != (log or "-"):
+            probs.append("op %s: trap-call sequence %s, expected %s" % (op, log or "-", exp))
+    return probs
+
 def replay(ctx, path):
     with open(path) as f:
         rp = json.load(f)
+    if rp.get("kind") == "broken-obligation":
+        print(json.dumps(rp, indent=1))
+        print("VIOLATION property=C11 replay=%s no-failing-input-found" % path)
+        return 1
     harness = ctx.go_build()
     ops = rp.get("ops") or []
     if not harness or not ops:
@@ -866,21 +969,27 @@ def replay(ctx, path):
     model = ctx.model_exe()
     mo = None
     if os.path.exists(model):
-        _, mo, _ = ctx.run_lines([model], ops)
+        _, mo, _ = ctx.run_lines([model], [l for l in ops if l.split()[0] in ("W", "E")])
     bad = 0
+    mi = 0
     for i, l in enumerate(ops):
         f = l.split()
-        spec = py_spec(f) if f[0] in ("W", "E") else None
         print("case:     ", l)
         print("observed: ", out[i] if i < len(out) else "?")
-        if mo:
-            print("model:    ", mo[i], "(mechanism spec)")
-        if spec is not None:
+        if f[0] in ("W", "E"):
+            spec = py_spec(f)
+            if mo and mi < len(mo):
+                print("model:    ", mo[mi], "(regenerated mechanism, Lean spec)")
+                mi += 1
             print("expected: ", spec, "(ECMA-262 §10.5)")
-            if i < len(out) and out[i] != spec:
+            if i < len(out) and out[i] != spec and not (f[0] == "W" and f[3] in ("compat", "def") and desc_ill_formed(parse_desc(f[6]))):
                 bad += 1
-        elif i < len(out) and "MISMATCH" in out[i]:
-            bad += 1
+        elif i < len(out):
+            probs = history_problems(l, out[i])
+            for p in probs:
+                print("problem:  ", p)
+            print("expected: ", "every result and the final state identical to the target's; trap-call sequences as in §10.5")
+            bad += 1 if probs else 0
     if bad:
         print("VIOLATION property=C11 replay=%s" % path)
     return 1 if bad else 0
